@@ -471,7 +471,7 @@ def r9_chunk_partition(ctx):
             lo, hi = rows.slice.lower, rows.slice.upper
             names = [u(e) for e in (tgt.elts if isinstance(tgt, ast.Tuple) else [tgt])]
             key_ok = isinstance(kexp, ast.Call) and len(kexp.args) == 1 and isinstance(kexp.args[0], ast.Subscript) and lo is not None and u(kexp.args[0].slice) == u(lo)
-            ctx.ob(f.where, "a group is labelled with the key of its own first row", key_ok, u(kexp), key="C12-R9|group-key", definite=True)
+            ctx.ob(f.where, "a group is labelled with the key of its own first row", key_ok, u(kexp), key="C12-R9|group-key")
             if hi is None:
                 cover = isinstance(dom, (ast.List, ast.Tuple)) and [u(e) for e in dom.elts] == ["0"] and names == [u(lo)]
             else:
@@ -482,7 +482,7 @@ def r9_chunk_partition(ctx):
                 for x in chs:
                     e2["changes"] = inline_locals(x.value, e2)
                 cover = sym.canon(inline_locals(dom, e2)) == want and names == [u(lo), u(hi)]
-            ctx.ob(f.where, "the groups of a chunk start at row 0, follow each other without gap, and end at the chunk's last row", cover, u(dom)[:100], key="C12-R9|cover", definite=True)
+            ctx.ob(f.where, "the groups of a chunk start at row 0, follow each other without gap, and end at the chunk's last row", cover, u(dom)[:100], key="C12-R9|cover")
         elif u(rows) == data:
             # the whole chunk as ONE group: right only if exactly one group comes out whenever the chunk has a row
             one = u(dom) in ("keys[:1]", "keys[0:1]", "[keys[0]]", "(keys[0],)")
